@@ -12,8 +12,8 @@ class BranchTreeAssembler(Transform[BranchTree, Tree]):
     EPS = 1e-6
 
     def __call__(self, x: BranchTree) -> Tree:
-        nodes = [x.soma().detach()]
-        stack = [(x.soma(), 0)]  # n_orig, id_new
+        nodes = [x.soma(type_check=False).detach()]
+        stack = [(x.soma(type_check=False), 0)]  # n_orig, id_new
         while len(stack):
             n_orig, pid_new = stack.pop()
             children = n_orig.children()
